@@ -531,9 +531,9 @@ pub fn run(args: &Args, report: &mut Report) {
         return;
     }
     let base = HRng::new(args.seed ^ 0xC19);
-    let n_rt = report.size(12_000, 240_000);
-    let n_chain = report.size(1200, 24_000);
-    let n_zarr = report.size(120, 1200);
+    let n_rt = report.size(12_000, 3_000_000);
+    let n_chain = report.size(1200, 250_000);
+    let n_zarr = report.size(120, 6000);
     crate::report::par_run(report, n_rt + n_chain + n_zarr + n_rt, |i, rep| {
         let preset = ALL_PRESETS[(i % 6) as usize];
         let seed = base.fork(i).next_u64();
